@@ -64,15 +64,12 @@ Proof. vm_compute. split; reflexivity. Qed.
    different shapes meet.  Witness (known_findings.json F9: four simulators in one group, a fifth outside; 0 -> 4 -> 1 plain,
    1 -> 3, 3 -> 2 and 0 -> 2 weak): the tables World.connect builds make the closure compare 0|0(2) with 0:0|(2), which are
    neither <, = nor > - update_min's assertion fires (CycIncomparable), whatever the order in which the simulators are taken. *)
-Definition f9_flags (w : bool) : cflags := mkF true true true false true 0 w w true.
-Definition f9_conns : list conn :=
-  [mkConn 0 4 2 0 (f9_flags false) false 0; mkConn 4 1 2 0 (f9_flags false) false 0; mkConn 1 3 2 0 (f9_flags true) false 7;
-   mkConn 3 2 2 0 (f9_flags true) false 7; mkConn 0 2 2 0 (f9_flags true) false 7].
+From MV Require Static.F9h.
 Theorem C06_only_accept_or_reject_refuted :
-  exists t, build [None; Some 0%nat] (fun i => if Nat.eqb i 4 then 0%nat else 1%nat) f9_conns = BOk t /\
+  exists t, build [None; Some 0%nat] (fun i => if Nat.eqb i 4 then 0%nat else 1%nat) Static.F9h.f9_conns = BOk t /\
             cycle_check 1000 (t_indel t) [0; 1; 2; 3; 4]%nat = CycIncomparable /\
             cycle_check 1000 (t_indel t) [4; 3; 2; 1; 0]%nat = CycIncomparable.
-Proof. eexists. split; [vm_compute; reflexivity|]. split; vm_compute; reflexivity. Qed.
+Proof. exact Static.F9h.only_accept_or_reject_refuted. Qed.
 Print Assumptions C06_only_accept_or_reject_refuted.
 
 (* known finding F9h as a theorem about the model (Static/F9h.v): on a non-convex scenario the closure loop of the cycle check need
@@ -88,3 +85,17 @@ Theorem C06_closure_terminates_refuted :
   (exists p, cycle_check 100 Static.F9h.f9h_ind [0; 1; 2; 3; 4; 5]%nat = CycRejected p).
 Proof. split; [exact Static.F9h.f9h_builds|]. split; [exact Static.F9h.f9h_closure_never_ends|exact Static.F9h.f9h_other_order_rejects]. Qed.
 Print Assumptions C06_closure_terminates_refuted.
+
+(* the property theorems, stated of the regenerated source itself (for tables in normal form): *)
+Theorem C06_generated_reported_cycle_is_real : forall ind fuel sims path, ind = map (fun s => (s, aget_l s ind)) sims -> wk_indel ind = true ->
+  cycle_check_gen fuel sims (fun s => aget_l s ind) = CycRejected path ->
+  exists s d, hd_error path = Some s /\ last path 0%nat = s /\ walk_delay ind path = Some d /\ izero d = true /\ In s sims.
+Proof. exact generated_reported_cycle_is_real. Qed.
+Print Assumptions C06_generated_reported_cycle_is_real.
+Theorem C06_generated_accepted_cycles_are_resolved : forall ind D sims fuel, ind = map (fun s => (s, aget_l s ind)) sims ->
+  wk_indel ind = true -> uni_indel D ind = true -> cov_indel ind sims = true ->
+  cycle_check_gen fuel sims (fun s => aget_l s ind) = CycAccepted ->
+  forall p s W, hd_error p = Some s -> last p 0%nat = s -> In s sims -> walk_delay ind p = Some W ->
+  izero W = false /\ all_zero ind p = false.
+Proof. exact generated_accepted_cycles_are_resolved. Qed.
+Print Assumptions C06_generated_accepted_cycles_are_resolved.
